@@ -69,8 +69,25 @@ type c19OptRepRaw struct {
 	Opt *c19MidRaw `parquet:"opt"`
 }
 
+type c19OptItemAny struct {
+	Opt *c19ItemAny `parquet:"opt"`
+}
+type c19OptItemRaw struct {
+	Opt *c19ItemRaw `parquet:"opt"`
+}
+type c19RepOptAny struct {
+	ID    int32           `parquet:"id"`
+	Items []c19OptItemAny `parquet:"items"`
+}
+type c19RepOptRaw struct {
+	ID    int32           `parquet:"id"`
+	Items []c19OptItemRaw `parquet:"items"`
+}
+
 // occurrences of one row: groups of variant values. rep1: one group; rep2: any number of groups;
-// opt: no group or one group of one value; optrep: no group or one group.
+// opt: no group or one group of one value; optrep: no group or one group; repopt: one group per
+// element of the repeated ancestor, empty where the optional group below it is null (so a null
+// occurrence sits between the other occurrences of the row).
 type c19Occ[X any] [][]X
 
 func c19OccShape[X any](o c19Occ[X]) string {
@@ -238,6 +255,61 @@ var c19ShapeOptRep = c19Shape[c19OptRepAny, c19OptRepRaw]{
 		return c19Occ[c19Raw]{c19RawOfItems(a.Opt.Inner)}
 	},
 	occGen: func(r *rand.Rand, e bool) []int { return c19GroupSizes(r, 1, true, e) },
+}
+
+var c19ShapeRepOpt = c19Shape[c19RepOptAny, c19RepOptRaw]{
+	name: "repeated-optional",
+	schema: func(v parquet.Node) *parquet.Schema {
+		return parquet.NewSchema("table", parquet.Group{"id": parquet.Int(32),
+			"items": parquet.Repeated(parquet.Group{"opt": parquet.Optional(parquet.Group{"v": v})})})
+	},
+	mk: func(id int32, o c19Occ[any]) c19RepOptAny {
+		a := c19RepOptAny{ID: id}
+		for _, g := range o {
+			it := c19OptItemAny{}
+			if len(g) > 0 {
+				it.Opt = &c19ItemAny{V: g[0]}
+			}
+			a.Items = append(a.Items, it)
+		}
+		return a
+	},
+	anyOf: func(a c19RepOptAny) c19Occ[any] {
+		o := c19Occ[any]{}
+		for _, it := range a.Items {
+			if it.Opt == nil {
+				o = append(o, []any{})
+			} else {
+				o = append(o, []any{it.Opt.V})
+			}
+		}
+		return o
+	},
+	rawOf: func(a c19RepOptRaw) c19Occ[c19Raw] {
+		o := c19Occ[c19Raw]{}
+		for _, it := range a.Items {
+			if it.Opt == nil {
+				o = append(o, []c19Raw{})
+			} else {
+				o = append(o, []c19Raw{it.Opt.V})
+			}
+		}
+		return o
+	},
+	occGen: func(r *rand.Rand, e bool) []int {
+		n := 1 + r.Intn(4)
+		if e && r.Intn(5) == 0 {
+			n = 0
+		}
+		out := make([]int, n)
+		for i := range out {
+			out[i] = 1
+			if e && r.Intn(3) == 0 {
+				out[i] = 0
+			}
+		}
+		return out
+	},
 }
 
 func c19WriteRowsOf[T any](schema *parquet.Schema, rows []T, mode string) ([]byte, error) {
@@ -552,13 +624,15 @@ func c19NestedReadCheck[A, R any](ctx *core.Ctx, sh c19Shape[A, R], data []byte,
 }
 
 func c19NestedCases(ctx *core.Ctx, r *rand.Rand, p *c19Pending) {
-	switch r.Intn(6) {
+	switch r.Intn(7) {
 	case 0, 1:
 		c19NestedCase(ctx, r, c19ShapeRep1, p)
 	case 2, 3:
 		c19NestedCase(ctx, r, c19ShapeRep2, p)
 	case 4:
 		c19NestedCase(ctx, r, c19ShapeOptRep, p)
+	case 5:
+		c19NestedCase(ctx, r, c19ShapeRepOpt, p)
 	default:
 		c19NestedCase(ctx, r, c19ShapeOpt, p)
 	}
